@@ -76,8 +76,8 @@ MUTANTS = [
     ("m23-no-guard-bool-apply0", I + "match.hpp",
      "constexpr bool use_guard = has_apply || has_apply0_bool;", "constexpr bool use_guard = has_apply;", ["C02"], "veto by bool apply0 leaves input consumed"),
     ("m24-tc-rf-optional-guard", I + "internal/try_catch_return_false.hpp",
-     "         auto m = in.template auto_rewind< M >();\n         using m_t = decltype( m );\n         try {\n            return m( Control< Rule >::template match< A, m_t::next_rewind_mode, Action, Control >( in, st... ) );\n         }\n         catch( const Exception& ) {",
-     "         auto m = in.template auto_rewind< rewind_mode::optional >();\n         using m_t = decltype( m );\n         try {\n            return m( Control< Rule >::template match< A, m_t::next_rewind_mode, Action, Control >( in, st... ) );\n         }\n         catch( const Exception& ) {", ["C05", "C02"], ""),
+     "         auto m = in.template auto_rewind< M >();\n         using m_t = decltype( m );\n\n         try {\n            return m( Control< Rule >::template match< A, m_t::next_rewind_mode, Action, Control >( in, st... ) );\n         }\n         catch( const Exception& ) {",
+     "         auto m = in.template auto_rewind< rewind_mode::optional >();\n         using m_t = decltype( m );\n\n         try {\n            return m( Control< Rule >::template match< A, m_t::next_rewind_mode, Action, Control >( in, st... ) );\n         }\n         catch( const Exception& ) {", ["C05", "C02"], ""),
     ("m25-tc-rf-catch-all", I + "internal/try_catch_return_false.hpp",
      "         catch( const Exception& ) {\n            return false;", "         catch( ... ) {\n            return false;", ["C05"], "typed variant swallows everything"),
     ("m26-raise-nested-position", I + "internal/try_catch_raise_nested.hpp",
@@ -146,6 +146,18 @@ MUTANTS = [
     ("m57-must-no-raise-position", I + "normal.hpp",
      "            throw parse_error( \"parse error matching \" + std::string( demangle< Rule >() ), in );\n         }\n#else\n         static_assert( internal::dependent_false< Rule >, \"exception support required for normal< Rule >::raise()\" );",
      "            throw parse_error( \"parse error matching \" + std::string( demangle< Rule >() ), position( 0, 1, 1, in.source() ) );\n         }\n#else\n         static_assert( internal::dependent_false< Rule >, \"exception support required for normal< Rule >::raise()\" );", ["C05"], "error position always at the beginning"),
+    ("m59-crlf-eol-size1", I + "internal/crlf_eol.hpp",
+     "bool_and_size p = { false, in.size( 2 ) };", "bool_and_size p = { false, in.size( 1 ) };", ["C07"], "eol::crlf policy: CR|LF split across reads (I/O jobs, chunk 4)"),
+    ("m60-cr-crlf-eol-size1", I + "internal/cr_crlf_eol.hpp",
+     "bool_and_size p = { false, in.size( 2 ) };", "bool_and_size p = { false, in.size( 1 ) };", ["C07"], "eol::cr_crlf policy"),
+    ("m11-cstream-error-as-eof", I + "internal/cstream_reader.hpp",
+     "         if( std::feof( m_cstream ) != 0 ) {\n            return 0;\n         }", "         if( ( std::feof( m_cstream ) != 0 ) || ( std::ferror( m_cstream ) != 0 ) ) {\n            return 0;\n         }", ["C07"], "stream error treated as end of input"),
+    ("m12-read-file-ignore-fread", I + "internal/read_file_stdio.hpp",
+     "if( std::fread( buffer, length, 1, m_file.get() ) != 1 ) {", "if( ( std::fread( buffer, length, 1, m_file.get() ) != 1 ) && ( std::ferror( m_file.get() ) == 0 ) && ( std::feof( m_file.get() ) == 0 ) ) {", ["C07"], "failed whole-file read ignored"),
+    ("m13-mmap-failure-ignored", I + "internal/mmap_file_posix.hpp",
+     "if( ( m_size != 0 ) && ( reinterpret_cast< intptr_t >( m_data ) == -1 ) ) {", "if( ( m_size == 0 ) && ( reinterpret_cast< intptr_t >( m_data ) == -1 ) ) {", ["C07"], "MAP_FAILED not detected"),
+    ("m61-istream-error-as-eof", I + "internal/istream_reader.hpp",
+     "         if( m_istream.eof() ) {\n            return 0;\n         }", "         if( m_istream.eof() || m_istream.bad() ) {\n            return 0;\n         }", ["C07"], "badbit treated as end of input"),
     ("m58-discard-threshold", I + "buffer_input.hpp",
      "if( m_current.data > m_buffer.get() + Chunk ) {", "if( m_current.data > m_buffer.get() + 2 * Chunk ) {", ["C07"], "discard() a no-op more often than documented: overflow_error inside the guarantee"),
 ]
@@ -171,11 +183,24 @@ def apply_mutant(root, m):
     return None
 
 
+SIM_SNAPSHOT = None
+
+
+def sim_sources():
+    """a private copy of the simulator sources, so that edits in /verif/sim during a long self-test do not leak into it"""
+    global SIM_SNAPSHOT
+    if SIM_SNAPSHOT is None:
+        SIM_SNAPSHOT = os.path.join(SCRATCH, f"simsrc-{os.getpid()}")
+        shutil.rmtree(SIM_SNAPSHOT, ignore_errors=True)
+        shutil.copytree(os.path.join(VERIF, "sim"), SIM_SNAPSHOT)
+    return SIM_SNAPSHOT
+
+
 def test_tree(root, checks, runs, label):
     """build the simulator against root/include and run the checks; returns {check: (exit, tail)}"""
     build = os.path.join(root, "build", "asan")
     targets = sorted({t for c in checks for t in CHECK_TARGETS[c]})
-    r = run(["make", "-C", os.path.join(VERIF, "sim"), "-j16", "PEGTL_INCLUDE=" + os.path.join(root, "include"), "B=" + build] + targets)
+    r = run(["make", "-C", sim_sources(), "-j16", "PEGTL_INCLUDE=" + os.path.join(root, "include"), "B=" + build] + targets)
     if r.returncode != 0:
         return {c: (-1, "BUILD FAILED: " + r.stdout[-600:]) for c in checks}
     out = {}
@@ -214,9 +239,20 @@ def cmd_mutants(ids, runs):
         results.append((mid, status, "; ".join(lines)))
         print(f"{mid}: {status} by {caught} expected {checks} ({time.time() - t0:.0f}s) {note}\n    " + "\n    ".join(lines), flush=True)
         shutil.rmtree(root, ignore_errors=True)
-    with open(os.path.join(VERIF, "selftest_mutants.json"), "w") as f:
-        json.dump([{"id": a, "status": b, "detail": c} for a, b, c in results], f, indent=1)
+    path = os.path.join(VERIF, "selftest_mutants.json")
+    merged = {}
+    try:
+        for e in json.load(open(path)):
+            merged[e["id"]] = e
+    except (OSError, ValueError):
+        pass
+    for a, b, c in results:
+        merged[a] = {"id": a, "status": b, "detail": c}
+    with open(path, "w") as f:
+        json.dump([merged[k] for k in sorted(merged)], f, indent=1)
     missed = [r for r in results if r[1] != "CAUGHT"]
+    if SIM_SNAPSHOT:
+        shutil.rmtree(SIM_SNAPSHOT, ignore_errors=True)
     print(f"{len(results) - len(missed)}/{len(results)} mutants caught")
     return 0 if not missed else 1
 
